@@ -35,9 +35,10 @@ def run_mutants(prop, repo=None, only=None):
             open(path, "w").write(src.replace(old, new, 1))     # first occurrence only
             try:
                 r = subprocess.run([os.path.join(core.VERIF, "check"), prop, "--tier", "quick", "--repo", d], capture_output=True, text=True,
-                                   env=dict(os.environ, PSV_EVIDENCE_DIR=evd), cwd=core.VERIF)
+                                   env=dict(os.environ, PSV_EVIDENCE_DIR=evd, PSV_CACHE_DIR=os.path.join(d, "_cache")), cwd=core.VERIF)
             finally:
                 open(path, "w").write(src)
+                shutil.rmtree(os.path.join(d, "_cache"), ignore_errors=True)
             lines = [l for l in r.stdout.splitlines() if (" %s [" % rule) in l]
             if r.returncode == 1 and lines:
                 out.append(dict(id=mid, rule=rule, status="killed", detail=lines[0][:200].replace(d + "/", "")))
